@@ -503,6 +503,33 @@ pub fn c19_check_str(input: &[u8]) -> Vec<Fail> {
             _ => out.push(fail("deserialize-vs-parse", format!("[from_value] {:?}: parse ok = {}, deserialize ok = {}", s, direct.is_ok(), de.is_ok()))),
         },
     }
+    // further routes to the same Deserialize impl: serde's own value deserializers (which call visit_str,
+    // visit_string and visit_borrowed_str respectively), serde_json from bytes / from a reader, and the
+    // identifier as an element, an optional and a *map key* (serde_json hands keys to a separate deserializer)
+    use serde::de::value::{BorrowedStrDeserializer, CowStrDeserializer, Error as VErr, StrDeserializer, StringDeserializer};
+    use serde::Deserialize;
+    let quoted = &renderings[0].1;
+    let routes: Vec<(&str, Result<Result<LanguageIdentifier, String>, String>)> = vec![
+        ("value::StrDeserializer", guard(|| LanguageIdentifier::deserialize(StrDeserializer::<VErr>::new(s)).map_err(|e| e.to_string()))),
+        ("value::StringDeserializer", guard(|| LanguageIdentifier::deserialize(StringDeserializer::<VErr>::new(s.to_string())).map_err(|e| e.to_string()))),
+        ("value::BorrowedStrDeserializer", guard(|| LanguageIdentifier::deserialize(BorrowedStrDeserializer::<VErr>::new(s)).map_err(|e| e.to_string()))),
+        ("value::CowStrDeserializer(owned)", guard(|| LanguageIdentifier::deserialize(CowStrDeserializer::<VErr>::new(std::borrow::Cow::Owned(s.to_string()))).map_err(|e| e.to_string()))),
+        ("serde_json::from_slice", guard(|| serde_json::from_slice::<LanguageIdentifier>(quoted.as_bytes()).map_err(|e| e.to_string()))),
+        ("serde_json::from_reader", guard(|| serde_json::from_reader::<_, LanguageIdentifier>(std::io::Cursor::new(renderings[2].1.as_bytes())).map_err(|e| e.to_string()))),
+        ("element of a JSON array", guard(|| serde_json::from_str::<Vec<LanguageIdentifier>>(&format!("[{}]", quoted)).map_err(|e| e.to_string()).map(|mut v| v.pop().unwrap()))),
+        ("Option<LanguageIdentifier>", guard(|| serde_json::from_str::<Option<LanguageIdentifier>>(quoted).map_err(|e| e.to_string()).and_then(|v| v.ok_or_else(|| "None".to_string())))),
+        ("JSON object key", guard(|| serde_json::from_str::<std::collections::BTreeMap<LanguageIdentifier, u8>>(&format!("{{{}:1}}", renderings[1].1)).map_err(|e| e.to_string()).and_then(|m| m.into_iter().next().map(|(k, _)| k).ok_or_else(|| "empty map".to_string())))),
+    ];
+    for (name, r) in routes {
+        match r {
+            Err(p) => out.push(fail("panic", format!("{} on {:?} panicked: {}", name, s, p))),
+            Ok(de) => match (&direct, &de) {
+                (Ok(a), Ok(b)) if a == b => {}
+                (Err(_), Err(_)) => {}
+                _ => out.push(fail("deserialize-vs-parse", format!("[{}] {:?}: parse = {:?}, deserialize = {:?}", name, s, direct.as_ref().map(|x| x.to_string()), de.as_ref().map(|x| x.to_string())))),
+            },
+        }
+    }
     if let Ok(li) = &direct {
         out.extend(c19_check_value(li));
     }
@@ -529,6 +556,22 @@ pub fn c19_check_value(li: &LanguageIdentifier) -> Vec<Fail> {
         Ok(Ok(Value::String(s))) if s == canon => {}
         x => out.push(fail("serialized-form", format!("to_value({}) = {:?}", canon, x.map(|r| r.map_err(|e| e.to_string()))))),
     }
+    // inside containers and as a map key (serde_json serialises keys through a separate serializer that only
+    // accepts string-like values): the text must again be exactly the canonical string
+    let mut m = std::collections::BTreeMap::new();
+    m.insert(li.clone(), vec![li.clone()]);
+    let want = format!("{{{}:[{}]}}", json_quote(&canon), json_quote(&canon));
+    match guard(|| serde_json::to_string(&m)) {
+        Ok(Ok(js)) if js == want => match guard(|| serde_json::from_str::<std::collections::BTreeMap<LanguageIdentifier, Vec<LanguageIdentifier>>>(&js)) {
+            Ok(Ok(back)) if back == m => {}
+            x => out.push(fail("serde-roundtrip", format!("map {} -> {:?}", js, x.map(|r| r.map(|_| "a different map").map_err(|e| e.to_string()))))),
+        },
+        x => out.push(fail("serialized-form", format!("as key and element: {:?} instead of {}", x.map(|r| r.map_err(|e| e.to_string())), want))),
+    }
+    match guard(|| serde_json::to_vec(li)) {
+        Ok(Ok(v)) if v == json_quote(&canon).into_bytes() => {}
+        x => out.push(fail("serialized-form", format!("to_vec({}) = {:?}", canon, x.map(|r| r.map(|v| String::from_utf8_lossy(&v).into_owned()).map_err(|e| e.to_string()))))),
+    }
     out
 }
 
@@ -543,6 +586,36 @@ pub fn c19_check_nonstring(js: &str) -> Vec<Fail> {
         Err(p) => out.push(fail("non-string-panicked", format!("{}: {}", js, p))),
         Ok(Ok(v)) => out.push(fail("non-string-accepted", format!("{} deserialised to {}", js, v))),
         Ok(Err(_)) => {}
+    }
+    if js == "null" {
+        // the same non-string shapes through serde's own value deserializers (no JSON involved)
+        use serde::de::value::{BoolDeserializer, Error as VErr, F64Deserializer, I64Deserializer, MapDeserializer, SeqDeserializer, U32Deserializer, U64Deserializer, UnitDeserializer};
+        use serde::Deserialize;
+        let rs: Vec<(&str, Result<Result<LanguageIdentifier, VErr>, String>)> = vec![
+            ("unit", guard(|| LanguageIdentifier::deserialize(UnitDeserializer::<VErr>::new()))),
+            ("bool", guard(|| LanguageIdentifier::deserialize(BoolDeserializer::<VErr>::new(true)))),
+            ("u32 (integer form of 'en')", guard(|| LanguageIdentifier::deserialize(U32Deserializer::<VErr>::new(0x6e65)))),
+            ("u64", guard(|| LanguageIdentifier::deserialize(U64Deserializer::<VErr>::new(28261)))),
+            ("i64", guard(|| LanguageIdentifier::deserialize(I64Deserializer::<VErr>::new(-1)))),
+            ("f64", guard(|| LanguageIdentifier::deserialize(F64Deserializer::<VErr>::new(1.5)))),
+            ("seq of str", guard(|| LanguageIdentifier::deserialize(SeqDeserializer::<_, VErr>::new(vec!["en", "US"].into_iter())))),
+            ("map", guard(|| LanguageIdentifier::deserialize(MapDeserializer::<_, VErr>::new(vec![("language", "en")].into_iter())))),
+        ];
+        for (name, r) in rs {
+            match r {
+                Err(p) => out.push(fail("non-string-panicked", format!("value deserializer {}: {}", name, p))),
+                Ok(Ok(v)) => out.push(fail("non-string-accepted", format!("value deserializer {} deserialised to {}", name, v))),
+                Ok(Err(_)) => {}
+            }
+        }
+        // bytes and a lone char are string-like for some formats: only "no panic" is required of them
+        use serde::de::value::{BytesDeserializer, CharDeserializer};
+        if let Err(p) = guard(|| LanguageIdentifier::deserialize(BytesDeserializer::<VErr>::new(b"en-US")).is_ok()) {
+            out.push(fail("non-string-panicked", format!("value deserializer bytes: {}", p)));
+        }
+        if let Err(p) = guard(|| LanguageIdentifier::deserialize(CharDeserializer::<VErr>::new('e')).is_ok()) {
+            out.push(fail("non-string-panicked", format!("value deserializer char: {}", p)));
+        }
     }
     if let Ok(v) = serde_json::from_str::<Value>(js) {
         match guard(|| serde_json::from_value::<LanguageIdentifier>(v)) {
